@@ -46,16 +46,46 @@ func safeFloatToDec(f float64) decimal.Decimal {
 	return decimal.NewFromFloat(f)
 }
 
+// fitInt32 returns the number as an int32 or, if it does not fit, as an int64.
+func fitInt32(n int64) interface{} {
+	if n >= math.MinInt32 && n <= math.MaxInt32 {
+		return int32(n)
+	}
+	return n
+}
+
+// addInt64 adds two int64 and returns Missing if the result overflows.
+func addInt64(a, b int64) interface{} {
+	c := a + b
+	if (c > a) != (b > 0) {
+		return Missing
+	}
+	return c
+}
+
+// mulInt64 multiplies two int64 and returns Missing if the result overflows.
+func mulInt64(a, b int64) interface{} {
+	if a == 0 || b == 0 {
+		return int64(0)
+	}
+	c := a * b
+	if c/b != a || (a == -1 && b == math.MinInt64) || (b == -1 && a == math.MinInt64) {
+		return Missing
+	}
+	return c
+}
+
 // Add will add together two numerical values. It accepts and returns int32,
-// int64, float64 and decimal128.
+// int64, float64 and decimal128. An int32 result that overflows is promoted to
+// int64, an int64 result that overflows yields Missing.
 func Add(num, inc interface{}) interface{} {
 	switch num := num.(type) {
 	case int32:
 		switch inc := inc.(type) {
 		case int32:
-			return num + inc
+			return fitInt32(int64(num) + int64(inc))
 		case int64:
-			return int64(num) + inc
+			return addInt64(int64(num), inc)
 		case float64:
 			return float64(num) + inc
 		case primitive.Decimal128:
@@ -66,9 +96,9 @@ func Add(num, inc interface{}) interface{} {
 	case int64:
 		switch inc := inc.(type) {
 		case int32:
-			return num + int64(inc)
+			return addInt64(num, int64(inc))
 		case int64:
-			return num + inc
+			return addInt64(num, inc)
 		case float64:
 			return float64(num) + inc
 		case primitive.Decimal128:
@@ -108,15 +138,16 @@ func Add(num, inc interface{}) interface{} {
 }
 
 // Mul will multiply the two numerical values. It accepts and returns int32,
-// int64, float64 and decimal128.
+// int64, float64 and decimal128. An int32 result that overflows is promoted to
+// int64, an int64 result that overflows yields Missing.
 func Mul(num, mul interface{}) interface{} {
 	switch num := num.(type) {
 	case int32:
 		switch mul := mul.(type) {
 		case int32:
-			return num * mul
+			return fitInt32(int64(num) * int64(mul))
 		case int64:
-			return int64(num) * mul
+			return mulInt64(int64(num), mul)
 		case float64:
 			return float64(num) * mul
 		case primitive.Decimal128:
@@ -127,9 +158,9 @@ func Mul(num, mul interface{}) interface{} {
 	case int64:
 		switch mul := mul.(type) {
 		case int32:
-			return num * int64(mul)
+			return mulInt64(num, int64(mul))
 		case int64:
-			return num * mul
+			return mulInt64(num, mul)
 		case float64:
 			return float64(num) * mul
 		case primitive.Decimal128:
